@@ -2,12 +2,12 @@ package engine
 
 import (
 	"fmt"
-	"os"
-	"runtime/debug"
 	"go/constant"
 	"go/token"
 	"go/types"
 	"math"
+	"os"
+	"runtime/debug"
 	"strings"
 
 	"golang.org/x/tools/go/ssa"
